@@ -76,6 +76,12 @@ def main():
     if rc != 0:
         print("cannot apply to /repo:", out); return 2
     results = {}
+    # the evidence files describe runs on the UNCHANGED tree: keep them out of the seeded runs
+    saved = {}
+    for c in checks:
+        p = os.path.join(ROOT, "evidence", c + ".json")
+        if os.path.exists(p):
+            saved[p] = open(p, "rb").read()
     try:
         for c in checks:
             t0 = time.time()
@@ -85,6 +91,8 @@ def main():
             print(c, "exit", rc, results[c]["lines"])
     finally:
         sh("git -C /repo checkout -- .")
+        for p, data in saved.items():
+            open(p, "wb").write(data)
         # bring the regenerated model parts (coq/gen/*.v) back to the unchanged tree
         sh("cd %s/bin && python3 -c 'import vlib, gen; vlib.build_harness(); gen.regenerate()'" % ROOT)
     meta["checks_with_patch"] = results
